@@ -63,11 +63,17 @@ func (w *World) attCtx(voteFor *Node, slot common.Slot, index common.CommitteeIn
 	comm, err := epc.GetBeaconCommittee(slot, index)
 	must(err)
 	comm = append([]common.ValidatorIndex(nil), comm...)
-	subnet, err := phase0.ComputeSubnetForAttestation(w.Spec, count, slot, index)
-	must(err)
+	// compute_subnet_for_attestation, written out here (the honest sender's subnet is not asked of the code under test)
+	subnet := w.unwrappedSubnet(count, slot, index) % 64
 	src := common.Checkpoint{Epoch: 0, Root: w.Genesis.Root}
 	return &AttCtx{W: w, Head: voteFor, Slot: slot, Index: index, Target: target, Committee: comm, Count: count, Subnet: subnet, TState: st, TEpc: epc,
 		Data: phase0.AttestationData{Slot: slot, Index: index, BeaconBlockRoot: voteFor.Root, Source: src, Target: common.Checkpoint{Epoch: ep, Root: target.Root}}}
+}
+
+// unwrappedSubnet: committees_per_slot * slots_since_epoch_start + committee_index (before the reduction modulo
+// ATTESTATION_SUBNET_COUNT = 64).
+func (w *World) unwrappedSubnet(count uint64, slot common.Slot, index common.CommitteeIndex) uint64 {
+	return count*(uint64(slot)%uint64(w.Spec.SLOTS_PER_EPOCH)) + uint64(index)
 }
 
 // SignAtt: the attestation of the committee members at `positions` for `data`, signed by `signers` under domain type dt.
